@@ -55,6 +55,11 @@ def build_msg(desc: str) -> bytes:
         elif k == "acct":
             for a in v.split("+"):
                 avps.append(gen.rfc_wire(259, 0, 0x40, u32(a)))
+        elif k in ("vauth", "vacct"):
+            # Vendor-Specific-Application-Id { Vendor-Id, Auth-/Acct-Application-Id }, one per id
+            for a in v.split("+"):
+                inner = gen.rfc_wire(266, 0, 0x40, u32(10415)) + gen.rfc_wire(258 if k == "vauth" else 259, 0, 0x40, u32(a))
+                avps.append(gen.rfc_wire(260, 0, 0x40, inner))
         elif k == "ip":
             avps.append(gen.rfc_wire(257, 0, 0x40, b"\x00\x01" + bytes(int(x) for x in v.split("."))))
         elif k == "vid":
